@@ -53,10 +53,13 @@ func (c *Completer) Init() {
 }
 
 func setHook(p *slip.Package, key string) {
-	if p == &Pkg ||
-		strings.HasPrefix(key, "*print-") ||
-		key == "*bag-time-format*" ||
-		key == "*bag-time-wrap*" {
+	// The hook is called with the plain and with the package qualified name.
+	// Only the plain name can be looked up when the config file is written.
+	if !strings.Contains(key, ":") &&
+		(p == &Pkg ||
+			strings.HasPrefix(key, "*print-") ||
+			key == "*bag-time-format*" ||
+			key == "*bag-time-wrap*") {
 		modifiedVars[key] = true
 		updateConfigFile()
 	}
